@@ -1,7 +1,102 @@
 import KM.Driver.Core
-/-! Driver for C12 (stub until the property's model is built). -/
-namespace KM.Driver.C12
+import KM.Driver.C04
+import KM.Model.Oidc
+/-! Driver for C12.
 
-def handler (_mode : String) : Option Handler := none
+`tok <nowSec> <issuerHex> <keys> <clients> <method> <grant> <redirectHex> <verifierHex> <basic> <formIdHex>
+     <formSecretHex> <s256(verifier)Hex> <prot> <alg> <by> <sigAlg> <wire>`
+  clients = `idhex:secrethex,…`   basic = `-` | `idhex:secrethex`   prot = `-` | `methodhex:challengehex`
+`ui <nowSec> <issuerHex> <keys> <alg> <by> <sigAlg> <wire>` -/
+namespace KM.Driver.C12
+open KM.Util KM.Token KM.Oidc KM.Driver.C04
+
+def parsePair (s : String) : Option (Str × Str) :=
+  match s.splitOn ":" with
+  | [a, b] => do pure (← strOfHex a, ← strOfHex b)
+  | _ => none
+
+def parseClients (s : String) : Option (List Client) :=
+  if s == "-" then some []
+  else (s.splitOn ",").mapM (fun p => (parsePair p).map fun (a, b) => ({ id := a, secret := b } : Client))
+
+structure Call where
+  cfg : Cfg
+  now : Clock
+  req : TokenReq
+
+def parseTok : List String → Option (Call × List String)
+  | "tok" :: ns :: iss :: keys :: clients :: method :: grant :: redirect :: verifier :: basic :: fid :: fsec ::
+      hv :: prot :: alg :: by_ :: sig :: wire :: rest => do
+    let d : Deployment := { issuer := ← strOfHex iss, trusted := ← parseKeys keys }
+    let verifier ← strOfHex verifier
+    let hv ← strOfHex hv
+    let prot ← (if prot == "-" then some none else (parsePair prot).map fun (m, c) => some ({ challenge := c, method := m } : Protected))
+    let cfg : Cfg := { dep := d, clients := ← parseClients clients,
+                       s256 := fun v => if v = verifier then hv else [],
+                       openSealed := fun _ _ _ => prot }
+    let basic ← (if basic == "-" then some none else (parsePair basic).map some)
+    let signedBy ← (if by_ == "-" then some none else by_.toNat?.map some)
+    let code : Artefact := { claims := ← parseWire wire, alg := ← parseAlg alg, signedBy := signedBy, sigAlg := ← parseAlg sig }
+    let req : TokenReq := { method := ← strOfHex method, grantType := ← strOfHex grant, redirect := ← strOfHex redirect,
+                            code := code, verifier := verifier, basic := basic, formClientID := ← strOfHex fid,
+                            formSecret := ← strOfHex fsec }
+    pure ({ cfg := cfg, now := { sec := ← ns.toInt?, nsec := 0 }, req := req }, rest)
+  | _ => none
+
+def showOidcRej : Oidc.Rej → String
+  | .method => "method" | .grant => "grant" | .noRedirect => "noRedirect" | .badCode => "badCode"
+  | .noCreds => "noCreds" | .noClientID => "noClientID" | .unknownClient => "unknownClient"
+  | .pkceNotAllowed => "pkceNotAllowed" | .badCreds => "badCreds"
+  | .code r => "code-" ++ showRej r
+
+def model (fs : List String) : String :=
+  match fs with
+  | ["ui", ns, iss, keys, alg, by_, sig, wire] =>
+    (do
+      let d : Deployment := { issuer := ← strOfHex iss, trusted := ← parseKeys keys }
+      let signedBy ← (if by_ == "-" then some none else by_.toNat?.map some)
+      let a : Artefact := { claims := ← parseWire wire, alg := ← parseAlg alg, signedBy := signedBy, sigAlg := ← parseAlg sig }
+      let cfg : Cfg := { dep := d, clients := [], s256 := fun _ => [], openSealed := fun _ _ _ => none }
+      pure (match userinfo cfg { sec := ← ns.toInt?, nsec := 0 } a with
+        | .ok u => "ok " ++ hexOfStr u
+        | .error e => "rej " ++ showRej e)).getD "bad-op"
+  | _ =>
+    match parseTok fs with
+    | some (k, []) =>
+      (match token k.cfg k.now k.req with
+       | .ok (idt, acc) => s!"ok {showWire idt} {showWire acc}"
+       | .error e => "rej " ++ showOidcRej e)
+    | _ => "bad-op"
+
+/-- `tok … <wire> <acc|rej>`: the theorem's predicate `releasable` applied to what the implementation did -/
+def judge (fs : List String) : String :=
+  match parseTok fs with
+  | some (k, [dec]) =>
+    if dec == "acc" then
+      if releasable k.cfg k.now k.req then "ok"
+      else
+        let r := k.req
+        let why := match creds r with
+          | .error _ => "no-credentials"
+          | .ok (id, pass) =>
+            match getClient k.cfg id with
+            | none => "unknown-client"
+            | some cl =>
+              ",".intercalate (
+                (if !signedByDeployment k.cfg.dep r.code then ["code-not-signed-by-deployment"] else []) ++
+                (if !provedClient k.cfg cl pass r.verifier r.code.claims then ["client-not-proved"] else []) ++
+                (if !(gStr r.code.claims .sub == id) then ["code-issued-to-other-client"] else []) ++
+                (if !decide (k.now.sec ≤ gInt r.code.claims .exp) then ["code-expired"] else []) ++
+                (if !(gStr r.code.claims .redirectUri == r.redirect) then ["redirect-differs"] else []) ++
+                (if !(gStr r.code.claims .typ == KM.Gen.C04.codeType) then ["not-a-code"] else []))
+        "viol released " ++ why
+    else if dec == "rej" then "ok"
+    else "bad-op"
+  | _ => "bad-op"
+
+def handler (mode : String) : Option Handler :=
+  if mode == "model" then some (.pure model)
+  else if mode == "judge" then some (.pure judge)
+  else none
 
 end KM.Driver.C12
